@@ -84,6 +84,8 @@ def call_ref(it, name, args, kwargs, node, fr):
         return i_
     if name == "copy.deepcopy" or name == "copy.copy":
         return deep_copy(args[0])
+    if name in ("numba.njit", "numba.jit", "numba.core.decorators.njit", "numba.core.decorators.jit") and len(args) == 1 and type(args[0]).__name__ == "Func":
+        return args[0]  # the compiled function is the function
     if name == "decimal.Decimal":
         v = args[0]
         d = Val(to_term(v))
@@ -204,6 +206,11 @@ def call_numpy(it, name, mod, fn, args, kwargs, node, fr):
         op = ELEMENTWISE[fn]
         return map1(lambda t: mk(op, t), args[0])
     if fn in BINARY and len(args) >= 2:
+        if fn in ("add", "subtract", "multiply", "divide", "true_divide") and any(type(a).__module__ == "sa.imgdom" for a in args[:2]):
+            # np.multiply(spectrum, gain) is spectrum * gain: the image domain's own arithmetic decides it
+            import ast as _ast
+            op_ = {"add": _ast.Add, "subtract": _ast.Sub, "multiply": _ast.Mult, "divide": _ast.Div, "true_divide": _ast.Div}[fn]()
+            return it.binop(op_, args[0], args[1], node)
         return binmap(BINARY[fn], args[0], args[1], it, node)
     if fn in TRANSPARENT and args and isinstance(args[0], (Val, Unk)) and not is_pyconst(args[0]):
         import copy as _copy
@@ -782,6 +789,9 @@ def call_builtin(it, fn, args, kwargs, node, fr):
                 t = mk("add", t, to_term(x))
             return Val(t)
         return reduce_(it, "sum", args[0], None, kwargs, node)
+    if fn == "id" and len(args) == 1 and not kwargs:
+        # identity of an object: the same abstract value is the same object, two values built separately are different objects
+        return K(("object-identity", id(args[0])))
     if fn == "print":
         return K(None)
     if fn == "bool" and args:
@@ -1581,7 +1591,7 @@ def val_method(it, v, name, args, kwargs, node, fr):
             if args and (isinstance(args[0], Ref) and args[0].name in ("builtins.int", "numpy.int32", "numpy.int64", "numpy.int_")
                          or is_pyconst(args[0]) and pyval(args[0]) in ("int", "int32", "int64")):
                 r.term = mk("int", v.term)
-            elif args and _runtime_dtype(args[0]):
+            elif args and _runtime_dtype(args[0]) and not _dtype_of_float_value(args[0]):
                 # the target type is itself data (another array's dtype): the cast may truncate -- not the identity
                 r.term = call("cast", v.term, to_term(args[0]))
         return r
@@ -1684,6 +1694,16 @@ def _dtype_kind(d):
     if short in ("str", "string", "object", "O", "category"):
         return "str" if short in ("str", "string") else "float"
     return "cast"
+
+
+def _dtype_of_float_value(d):
+    """`y.dtype` of a value y that is floating point whatever the inputs are (a square root, a quotient, an exponential ... of anything): a conversion
+    to it keeps every value of the abstract real domain"""
+    t = to_term(d)
+    if not (t.op == "call" and str(t.args[0]) in (".dtype", "dtype") and len(t.args) >= 2):
+        return False
+    y = t.args[1]
+    return y.op in ("sqrt", "div", "exp", "log", "sin", "cos", "tan", "arccos", "arcsin", "arctan", "arctan2", "radians", "degrees", "float")
 
 
 def _runtime_dtype(d):
